@@ -91,3 +91,20 @@ func VerifC19_GraceOperationsOnDifferentKeysCommute() {
 // C06: an API error inside the wrapped (idempotent) closure is handed back to the caller with "retry", whatever the
 // grace period — it is never turned into "done" (the same obligation as C07.grace.errorPropagated).
 func VerifC06_GraceWrapperNeverSwallowsErrors() { VerifC07_GraceWrapperAlwaysSchedulesAWakeUp() }
+
+// VerifC19_GraceQueryIsReadOnly: SatisfiedExpectations runs under the registry's *read* lock, side by side with the
+// queries of other rollouts' workers; it must therefore leave the shared registry exactly as it found it, whatever
+// the answer (a query that cleans up behind itself would write to the map other workers are reading).
+func VerifC19_GraceQueryIsReadOnly() {
+	e := NewGraceExpectations()
+	pendA := vPrepopulate(e, "key-a", "act", "a")
+	pendB := vPrepopulate(e, "key-b", "act", "b")
+	g := int32(verifrt.IntRange("graceSeconds", 0, 10))
+	e.SatisfiedExpectations("key-a", "act", g)
+	_, a := e.controllerCache["key-a"]["act"]
+	_, b := e.controllerCache["key-b"]["act"]
+	verifrt.Assert(a == pendA, "C19.grace.queryLeavesOwnEntryInPlace")
+	verifrt.Assert(b == pendB, "C19.grace.queryLeavesOtherEntriesInPlace")
+	_, ka := e.controllerCache["key-a"]
+	verifrt.Assert(ka == pendA, "C19.grace.queryLeavesKeysInPlace")
+}
